@@ -330,7 +330,8 @@ C13_PassThrough(pre, ev, post) ==
     C13_Applies(pre, ev) =>
         LET final == RouteOps(ev)[Len(RouteOps(ev))].ask_info
             r == RouteRecv(ev)   c == Caller(ev)   inI == RouteInInfo(ev)
-        IN  /\ \A info \in RouteAssets(ev) : Bal(post, info, post.router) = N0
+        IN  \* nothing of the route stays in the router (unless the router itself is the named recipient of the final asset)
+            /\ \A info \in RouteAssets(ev) \ (IF r = post.router THEN {final} ELSE {}) : Bal(post, info, post.router) = N0
             /\ (r # c /\ r \notin AddressedContracts(pre, ev)) =>
                    \A info \in AllAssets(post) \ {final} : Bal(post, info, r) = Bal(pre, info, r)
             /\ (inI # final /\ c \notin AddressedContracts(pre, ev)) =>
